@@ -3,6 +3,8 @@ package c13
 import (
 	"bytes"
 	"fmt"
+	"math"
+	"sort"
 	"strings"
 
 	"github.com/golang/geo/s2"
@@ -26,6 +28,7 @@ type lpHistory struct {
 	Family string
 	L      gen.LoopCase
 	R      gen.RingsPolygon
+	More   []gen.RingsPolygon // polygon: further ring families about other cube-face centres (several top-level shells, > 12 loops)
 	Others []gen.LoopCase
 	Ops    []lpOp
 }
@@ -54,6 +57,11 @@ func (c lpHistory) boundaryVerts() []gen.P {
 		var v []gen.P
 		for _, r := range c.R.Rings {
 			v = append(v, r...)
+		}
+		for _, m := range c.More {
+			for _, r := range m.Rings {
+				v = append(v, r...)
+			}
 		}
 		return v
 	}
@@ -103,6 +111,13 @@ func (c lpHistory) freshPolygon(odd bool) *s2.Polygon {
 		}
 		ls = append(ls, s2.LoopFromPoints(gen.Pts(v)))
 	}
+	// the complement of a polygon with several shells: one top-level shell
+	// reversed (above), every other loop unchanged; the nesting is recomputed
+	for _, m := range c.More {
+		for _, r := range m.Rings {
+			ls = append(ls, s2.LoopFromPoints(gen.Pts(r)))
+		}
+	}
 	return s2.PolygonFromLoops(ls)
 }
 
@@ -123,6 +138,24 @@ func genLoopHistory(t *rapid.T) lpHistory {
 	case k <= 16:
 		c.Family = "polygon"
 		c.R = gen.DrawRings(t, "rp", 5, minInt(maxN, 120))
+		if rapid.IntRange(0, 2).Draw(t, "multi") == 0 {
+			// several disjoint ring families about distinct cube-face centres (radius ≤ 25°)
+			faces := rapid.Permutation([]int{0, 1, 2, 3, 4, 5}).Draw(t, "faces")
+			nf := rapid.IntRange(2, 5).Draw(t, "families")
+			per := 12
+			if rapid.Bool().Draw(t, "smallrings") {
+				per = 8
+			}
+			for f := 0; f < nf; f++ {
+				centre := s2.Point{Vector: gen.FaceUVToXYZ(faces[f], 0, 0)}
+				rp := gen.DrawRingsAt(t, fmt.Sprintf("mf%d", f), centre, rapid.IntRange(1, 4).Draw(t, "mrings"), per, 25*math.Pi/180)
+				if f == 0 {
+					c.R = rp
+				} else {
+					c.More = append(c.More, rp)
+				}
+			}
+		}
 	case k == 17:
 		c.Family = rapid.SampledFrom([]string{"emptyloop", "fullloop"}).Draw(t, "sp")
 	default:
@@ -239,6 +272,48 @@ func measurePolygon(p *s2.Polygon) string {
 		fmt.Fprintf(&b, " [loop %d hole=%v parent=%d,%v last=%d chain=%v origin=%v verts=%v]", k, p.Loop(k).IsHole(), par, ok, p.LastDescendant(k), p.Chain(k), p.Loop(k).ContainsOrigin(), p.Loop(k).Vertices())
 	}
 	return b.String()
+}
+
+// semanticPolygon: facts about a polygon that do not depend on the order of its
+// loops: counts, the sorted multiset of its Shape edges (interior on the left),
+// the chain bookkeeping (every edge id maps to a chain position and back, chains
+// tile the edge ids), and containment of p through an outer index.
+func semanticPolygon(p *s2.Polygon, q s2.Point) string {
+	var b strings.Builder
+	n := p.NumEdges()
+	fmt.Fprintf(&b, "loops=%d edges=%d chains=%d empty=%v full=%v dim=%d", p.NumLoops(), n, p.NumChains(), p.IsEmpty(), p.IsFull(), p.Dimension())
+	es := make([]string, 0, n)
+	for e := 0; e < n; e++ {
+		ed := p.Edge(e)
+		es = append(es, fmt.Sprintf("%v>%v", ed.V0.Vector, ed.V1.Vector))
+		cp := p.ChainPosition(e)
+		if cp.ChainID < 0 || cp.ChainID >= p.NumChains() || p.ChainEdge(cp.ChainID, cp.Offset) != ed || p.Chain(cp.ChainID).Start+cp.Offset != e {
+			fmt.Fprintf(&b, " [edge %d: ChainPosition %v does not lead back to it]", e, cp)
+		}
+	}
+	sort.Strings(es)
+	next := 0
+	for k := 0; k < p.NumChains(); k++ {
+		ch := p.Chain(k)
+		if ch.Start != next {
+			fmt.Fprintf(&b, " [chain %d starts at %d, previous chains end at %d]", k, ch.Start, next)
+		}
+		next = ch.Start + ch.Length
+	}
+	if next != n {
+		fmt.Fprintf(&b, " [chains cover %d of %d edges]", next, n)
+	}
+	idx := s2.NewShapeIndex()
+	idx.Add(p)
+	fmt.Fprintf(&b, " contains=%v direct=%v sorted-edges=%v", s2.NewContainsPointQuery(idx, s2.VertexModelSemiOpen).Contains(q), p.ContainsPoint(q), es)
+	return b.String()
+}
+
+func probeOr(p, def gen.P) s2.Point {
+	if p == (gen.P{}) {
+		return def.Pt()
+	}
+	return p.Pt()
 }
 
 func firstDiff(a, b string) string {
@@ -470,7 +545,11 @@ func runLoopHistory(c lpHistory) ev.Outcome {
 			}
 			continue
 		case "measure":
-			if poly {
+			if poly && len(c.More) > 0 {
+				// several top-level shells: which shell Invert reverses, and the loop
+				// order it leaves, are representation; compare the order-free facts
+				got, want = semanticPolygon(hp, probeOr(op.P, c.R.Center)), semanticPolygon(c.freshPolygon(odd), probeOr(op.P, c.R.Center))
+			} else if poly {
 				got, want = measurePolygon(hp), measurePolygon(c.freshPolygon(odd))
 			} else {
 				got, want = measureLoop(hl), measureLoop(c.freshLoop(odd))
@@ -480,6 +559,9 @@ func runLoopHistory(c lpHistory) ev.Outcome {
 			}
 			continue
 		case "encode":
+			if poly && len(c.More) > 0 {
+				continue // the byte stream depends on the loop order
+			}
 			var gb, wb bytes.Buffer
 			var ge, we error
 			if poly {
@@ -492,7 +574,9 @@ func runLoopHistory(c lpHistory) ev.Outcome {
 			}
 			continue
 		case "shape":
-			if poly {
+			if poly && len(c.More) > 0 {
+				got, want = semanticPolygon(hp, probeOr(op.P, c.R.Center)), semanticPolygon(c.freshPolygon(odd), probeOr(op.P, c.R.Center))
+			} else if poly {
 				got, want = shapeAnswers(hp, op.P.Pt()), shapeAnswers(c.freshPolygon(odd), op.P.Pt())
 			} else {
 				got, want = shapeAnswers(hl, op.P.Pt()), shapeAnswers(c.freshLoop(odd), op.P.Pt())
